@@ -3,7 +3,7 @@ import ast
 
 from ..model import AnalysisError, dotted, unparse
 from ..structfmt import parse_format, local_defs, resolve_local, linform, lin_eq, SIZES
-from ..util import FACTS, U, enum_paths, walk_no_nested, expand_events
+from ..util import resolved_text, FACTS, U, enum_paths, walk_no_nested, expand_events
 from ..paths import call_attr, call_name
 from .. import wire, bitvec
 
@@ -194,12 +194,18 @@ def r4_bits(ctx):
   signed = None
 
   def special(st, env):
-    # header, = unpack('!i', stream.read(4))
-    if isinstance(st, ast.Assign) and isinstance(st.value, ast.Call) and (dotted(st.value.func) or '').split('.')[-1] == 'unpack':
-      fmt = parse_format(st.value.args[0])
+    # header, = unpack('!i', stream.read(4))   or   header = unpack('!i', stream.read(4))[0]
+    val = st.value if isinstance(st, ast.Assign) else None
+    sub0 = False
+    if isinstance(val, ast.Subscript) and isinstance(val.value, ast.Call) and U(val.slice) == '0':
+      val, sub0 = val.value, True
+    if isinstance(st, ast.Assign) and isinstance(val, ast.Call) and (dotted(val.func) or '').split('.')[-1] == 'unpack':
+      fmt = parse_format(val.args[0])
       t = st.targets[0]
       if fmt is None or len(fmt.fields) != 1 or fmt.fields[0].code not in 'iIlL' or fmt.order not in ('!', '>'):
         raise bitvec.Undecidable('header is not unpacked as one big-endian 32-bit integer')
+      if sub0 and isinstance(t, ast.Name):
+        t = ast.Tuple(elts=[t], ctx=ast.Store())
       if not (isinstance(t, ast.Tuple) and len(t.elts) == 1 and isinstance(t.elts[0], ast.Name)):
         raise bitvec.Undecidable('unpack target shape')
       raw = env['__raw__']
@@ -269,6 +275,7 @@ def r5_tables(ctx):
            'a dispatch body is contexts, then empty destination and delegation table (two zero int16), then the thrift call')
   # context dict = public properties + headers
   upd = [U(c.args[0]) for c in walk_no_nested(f.node) if isinstance(c, ast.Call) and call_attr(c) == 'update' and c.args]
+  upd += [U(st.value.args[0]) for st in walk_no_nested(f.node) if isinstance(st, ast.Assign) and isinstance(st.value, ast.Call) and U(st.value.func) == 'dict' and len(st.value.args) == 1]
   msgp, hdrp = f.params[1], f.params[3]
   ctx.ob('C13.R5', f, 'contexts = public properties + headers',
          '%s.public_properties' % msgp in upd and hdrp in upd,
@@ -347,11 +354,20 @@ def r5_tables(ctx):
   ctx.ob('C13.R5', r, 'Rdispatch header = status byte + context count', ok, 'first unpack is %s' % (un[0].fmt.text if un and un[0].fmt else None),
          'an Rdispatch body starts with a status byte and an int16 context count')
   rc = prog.func(SER, 'MessageSerializer._ReadContext')
-  txt = U(rc.node)
-  loops = [n for n in walk_no_nested(rc.node) if isinstance(n, ast.For)]
-  ok = (len(loops) == 1 and U(loops[0].iter) in ('range(2)', 'range(0, 2)')
-        and any(s.fmt and [(x.code, x.count) for x in s.fmt.fields] == [('h', 1)] for s in wire.struct_sites(prog, rc))
-        and 'read(sz)' in txt.replace(' ', ''))
+  bufp = rc.params[-1]
+  ok = False
+  for ev, ex in enum_paths(ctx, rc):
+    if ex[0] != 'ret':
+      continue
+    ops = []
+    for i, e in enumerate(ev):
+      if e.kind == 'call' and call_attr(e.node) == 'read' and U(e.node.func.value) == bufp:
+        a = resolved_text(ev, i, e.node.args[0]) if e.node.args else ''
+        ops.append('read2' if a == '2' else 'readN')
+    # two length-prefixed fields: (read 2 -> unpack h, read that many) x 2
+    if ops == ['read2', 'readN', 'read2', 'readN']:
+      hs = [s_ for s_ in wire.struct_sites(prog, rc) if s_.fmt and [(x.code, x.count) for x in s_.fmt.fields] == [('h', 1)]]
+      ok = bool(hs)
   ctx.ob('C13.R5', rc, 'reply context skip = two length-prefixed fields', ok, 'shape of _ReadContext changed',
          'each reply context is a length-prefixed key and a length-prefixed value; skipping anything else misplaces the payload')
   loops = [n for n in walk_no_nested(r.node) if isinstance(n, ast.For)]
